@@ -299,6 +299,12 @@ func (w *world) checkRehomed(ctx context.Context, victim, remaining int, pinsBef
 					return false
 				}
 			}
+			for _, x := range a.Allocations {
+				if j := gen.PeerIndex(x) - w.base; w.members[j] == nil || !w.members[j].in {
+					bad, badKey, detail = fmt.Sprintf("a pin of the removed peer was re-homed onto p%d, which is not a member", j), "C17/remove/pin-rehomed-onto-non-member", d
+					return false
+				}
+			}
 			if len(a.Allocations) < p.ReplicationFactorMin {
 				bad, badKey, detail = fmt.Sprintf("%d allocations, min %d", len(a.Allocations), p.ReplicationFactorMin), "C17/remove/pin-under-replicated-after-rehoming", d
 				return false
@@ -360,6 +366,17 @@ func run(c *fw.Ctx, idx int) {
 			{"join", 1, 2}, {"pin", 1, -1}, {"restart", -1, 2}, {"remove", 1, 2}, {"pin", 0, -1}}
 		tune = tuneFor(repin)
 	}
+	// one case in twelve runs on the real monitor (pubsubmon over gossipsub, fed by the
+	// peers' own informer loops, filtered by the consensus peerset): pins land on the
+	// best-ranked members, which are then removed one right after the other at the same
+	// member - re-homed pins must end up on members
+	realMon := idx%12 == 5
+	if realMon {
+		n0 = 4
+		repin = true
+		tune = tuneFor(repin)
+		script = []forced{{"pin", 0, -1}, {"pin", 1, -1}, {"pin", 0, -1}, {"pin", 2, -1}, {"remove", 0, 3}, {"remove", 0, 2}, {"pin", 1, -1}}
+	}
 	var init []peer.ID
 	for i := 0; i < n0; i++ {
 		init = append(init, w.id(i))
@@ -378,7 +395,13 @@ func run(c *fw.Ctx, idx int) {
 		wg.Add(1)
 		go func(i int) {
 			defer wg.Done()
-			errs[i] = sim.StartPeer(ctx, w.members[i].peer, sim.NetOpts{Consensus: "raft", Peers: init, Tune: tune, RaftTune: rtune})
+			o := sim.NetOpts{Consensus: "raft", Peers: init, Tune: tune, RaftTune: rtune}
+			if realMon {
+				inf := sim.NewStubInformer("freespace")
+				inf.Valid, inf.Value, inf.TTL = true, fmt.Sprint(100-i), 20*time.Second // the ascending allocator ranks the members removed later best
+				o.RealMon, o.Informers = true, []ipfscluster.Informer{inf}
+			}
+			errs[i] = sim.StartPeer(ctx, w.members[i].peer, o)
 		}(i)
 	}
 	wg.Wait()
@@ -400,6 +423,21 @@ func run(c *fw.Ctx, idx int) {
 	}
 	sim.ConnectAll(ctx, w.hosts())
 	w.refreshMonitors()
+	if realMon {
+		// every member's monitor holds a metric of every member (the informer loops republish every 10 s)
+		if !waitUntil(40*time.Second, func() bool {
+			for _, i := range w.aliveIn() {
+				if len(w.members[i].peer.Node.Monitor.LatestMetrics(ctx, "freespace")) < n0 {
+					return false
+				}
+			}
+			return true
+		}) {
+			c.Inconclusive("the members' metrics did not reach every monitor within 40 s")
+			return
+		}
+		c.Cover("real-monitor")
+	}
 	next := n0 // next unused member index (max 4 peers in total at a time, 6 identities)
 	pinSeq := 0
 	steps := r.Range(4, 10)
